@@ -1547,7 +1547,17 @@ impl IceTransport {
 
     pub fn add_remote_candidate(&self, candidate: IceCandidate) {
         let mut list = self.inner.remote_candidates.lock();
-        list.push(candidate);
+        // A candidate learnt as peer-reflexive from an early check and signalled afterwards is
+        // the same candidate: the signalled description replaces the learnt one.
+        if let Some(learnt) = list.iter_mut().find(|c| {
+            c.typ == IceCandidateType::PeerReflexive
+                && c.address == candidate.address
+                && c.transport == candidate.transport
+        }) {
+            *learnt = candidate;
+        } else {
+            list.push(candidate);
+        }
         drop(list);
         self.try_connectivity_checks();
     }
@@ -2510,11 +2520,13 @@ async fn handle_stun_request(
             candidate.base_address(),
             transport,
         );
-        candidate.priority = if transport == "tcp" {
+        // RFC 8445 §7.3.1.3: the peer-reflexive candidate's priority is the PRIORITY attribute
+        // of the request, so that both agents compute the same pair priorities.
+        candidate.priority = msg.priority.unwrap_or(if transport == "tcp" {
             IceCandidate::priority_for_tcp(IceCandidateType::PeerReflexive, 1, TcpType::Passive)
         } else {
             IceCandidate::priority_for(IceCandidateType::PeerReflexive, 1)
-        };
+        });
 
         let mut list = inner.remote_candidates.lock();
         list.push(candidate);
